@@ -3,6 +3,7 @@ package spoksim
 import (
 	"encoding/json"
 	"fmt"
+	"golang.org/x/sys/unix"
 	"os"
 	"path/filepath"
 	"sort"
@@ -42,12 +43,12 @@ type CHCase struct {
 	// FixedMtime: every dependency file always carries the same modification time (and the content pool has
 	// equal sizes), as after `cp -p`, `touch -r`, a restore from backup or on a coarse-clocked file system:
 	// size and mtime do not identify content
-	FixedMtime bool   `json:"fixed_mtime,omitempty"`
+	FixedMtime bool `json:"fixed_mtime,omitempty"`
 	// Via: every invocation addresses the project through a symbolic link in its path ($HOME/via -> .): working
 	// directory, $PWD and --spokfile carry $HOME/via/proj/..., the files live in $HOME/proj
-	Via bool   `json:"via,omitempty"`
-	Ops []CHOp `json:"ops"`
-	Sched      Sched  `json:"sched"`
+	Via   bool   `json:"via,omitempty"`
+	Ops   []CHOp `json:"ops"`
+	Sched Sched  `json:"sched"`
 }
 
 type cachehist struct{}
@@ -121,7 +122,7 @@ func addWriter(r *Rng, p *Program) {
 	wi := 0 // the first task has no task dependencies, so readers may depend on it without creating a cycle
 	f := Pick(r, chLiteral)
 	p.Tasks[wi].Writes = []FileWrite{{Path: f, Content: Pick(r, []string{"gen1", "gen2", ""})}} // "": echo writes a lone newline, the size of the pool contents
-	if r.Chance(1, 2) { // formatter style: it also depends on the file it rewrites
+	if r.Chance(1, 2) {                                                                         // formatter style: it also depends on the file it rewrites
 		p.Tasks[wi].Deps = dedupDeps(append(p.Tasks[wi].Deps, Dep{"file", f}))
 	}
 	readers := 0
@@ -226,6 +227,9 @@ func (cachehist) Gen(r *Rng, cfg GenConfig) any {
 		if len(dst.Writes) == 0 && len(src.Writes) == 0 && dst.Name != "clean" {
 			old := dst.Name
 			dst.Name = strings.ToLower(src.Name)
+			if r.Chance(1, 2) {
+				dst.Name = src.Name + Pick(r, []string{"B", "_all", "x"}) // or one name is a prefix of the other
+			}
 			var ds []Dep
 			for _, d := range src.Deps {
 				if d.Kind != "task" {
@@ -491,15 +495,15 @@ type jsonResult struct {
 
 // projState is the model + disk bookkeeping shared by the L2 scenarios.
 type projState struct {
-	w          *World
-	prog       *Program
-	disk       map[string]string  // model copy of the project files it wrote
-	ctl        map[string]int     // "T_i" -> exit status (0 = ok)
-	last       map[string]*string // T -> canonical inputs of its last success
-	lastFail   map[string]bool    // T -> its most recent execution failed
+	w        *World
+	prog     *Program
+	disk     map[string]string  // model copy of the project files it wrote
+	ctl      map[string]int     // "T_i" -> exit status (0 = ok)
+	last     map[string]*string // T -> canonical inputs of its last success
+	lastFail map[string]bool    // T -> its most recent execution failed
 	// cacheGone: the cache was removed since T's last success. A skip is still *permitted* when the inputs equal
 	// those of the last success (the property does not say where spok keeps its record), but no longer *required*
-	cacheGone map[string]bool
+	cacheGone  map[string]bool
 	logLen     int
 	inv        int
 	links      map[string]string // dependency files that are symbolic links: path -> target path (project relative)
@@ -552,6 +556,12 @@ func newProjState(w *World, p *Program, disk map[string]string) *projState {
 		}
 	}
 	return s
+}
+
+// oldLink gives a symbolic link itself (not its target) the fixed modification time.
+func oldLink(full string) {
+	ts := []unix.Timespec{unix.NsecToTimespec(hsEpoch.UnixNano()), unix.NsecToTimespec(hsEpoch.UnixNano())}
+	must(unix.UtimesNanoAt(unix.AT_FDCWD, full, ts, unix.AT_SYMLINK_NOFOLLOW))
 }
 
 func (s *projState) write(rel, content string) {
@@ -795,6 +805,9 @@ func (cachehist) Exec(w *World, cc any, prop string) *Result {
 		must(os.MkdirAll(filepath.Dir(full), 0o755))
 		os.Remove(full)
 		must(os.Symlink(target, full))
+		if c.FixedMtime {
+			oldLink(full)
+		}
 		if s.links == nil {
 			s.links = map[string]string{}
 		}
@@ -846,6 +859,9 @@ func (s *projState) applyOp(res *Result, oi string, op CHOp) {
 			must(err)
 			os.Remove(full)
 			must(os.Symlink(target, full))
+			if s.fixedMtime {
+				oldLink(full)
+			}
 			s.links[op.Path] = op.Content
 			res.count("fault_fired:dependency_link_repointed")
 		}
